@@ -7,4 +7,7 @@ import (
 
 func init() {
 	core.RegisterSelfTest("schedx: interleaving counts, preemption bounds, lost update, replay", schedx.SelfTest)
+	if core.RaceEnabled {
+		core.RegisterSelfTest("race monitor: racy canary reported, adjacent cells and atomically ordered accesses not", raceCanary)
+	}
 }
